@@ -9,11 +9,11 @@ PROPS = os.path.join(ROOT, 'lean', 'ChessVerif', 'Props')
 META = {
  'C01': dict(files=['C01', 'C01Struct', 'C01King', 'C01NonKing', 'C01Ep', 'PinCheck', 'C01Plausible:C01_'], rule="positions from corpus, weighted playouts and synthesized valid set-ups (POS); the 20480-triple legality query on a subsample (LEGAL)"),
  'C02': dict(files=['C02', 'C02Ep:C02_', 'C01Plausible:C02_'], rule="every legal move of positions along playouts, make_move_new and make_move into three prefilled boards (MAKE)"),
- 'C03': dict(files=['C03', 'C03Step', 'Deprecated:C03_'], rule="positions reached incrementally along playouts with interleaved null moves, compared field by field with the from-scratch spec computation and with the re-parse of their own FEN"),
+ 'C03': dict(files=['C03', 'C03Step', 'Deprecated:C03_', 'C07Oracle:C03_', 'C07OracleDriver:C03_'], rule="positions reached incrementally along playouts with interleaved null moves, compared field by field with the from-scratch spec computation and with the re-parse of their own FEN"),
  'C04': dict(files=['C04', 'Compose:C04_'] if not os.environ.get('NO_COMPOSE') else ['C04'], rule="positions with terminal ones over-represented (mates, stalemates, small endgames)"),
  'C05': dict(files=['C05', 'Compose:C05_'] if not os.environ.get('NO_COMPOSE') else ['C05'], rule="MAKE lines along 300-ply playouts and complete move trees; Valid / is_sane / monotone counts checked on every successor"),
  'C06': dict(files=['C06', 'C06Std', 'C02Ep:C06_'], rule="POS (fen, reparse), FENP on the harness's standard FEN writer, BFEN on random builder states"),
- 'C07': dict(files=['C07', 'C07Full', 'C07Bounds', 'C07BoundsBmi'], rule="FENP on grammar-directed, mutated, truncated and random Unicode text; BLD on random builder states with 2..64 men; BPARSE"),
+ 'C07': dict(files=['C07', 'C07Full', 'C07Bounds', 'C07BoundsBmi', 'C07Oracle:C07_', 'C07OracleDriver:C07_'], rule="FENP on grammar-directed, mutated, truncated and random Unicode text; BLD on random builder states with 2..64 men; BPARSE"),
  'C08': dict(files=['C08', 'Deprecated:C08_'], rule="POS on transposition-rich streams; get_hash compared with the from-scratch hashOf of the position"),
  'C09': dict(files=['C09', 'C09Deps'], partial="the statistical clause (collisions no more frequent than chance among millions of explored positions) is measured by the COLL line, not proved: with 793 keys in GF(2)^64 collisions exist", rule="VAR: every single-component variant of sampled positions; COLL: millions of distinct positions hashed"),
  'C10': dict(files=['C10', 'C10NoPanic', 'C10Full'], rule="GAME programs: random/adversarial action sequences incl. illegal moves, offers by both colours, premature accepts, actions after the end"),
